@@ -888,7 +888,8 @@ def _cm_map_degree_history(chk):
                 raise Refuted("centre-manifold map: compute() returns the map of another request (degree of the shared centre "
                               "manifold / section coordinate)", f"request history (degree, section) {list(hist)}: the maps returned "
                               f"were computed for {[dec(c) for c in seen]}",
-                              replay=_REPLAY_CM_MAP_DEGREE, inputs={"history": [list(h) for h in hist]})
+                              replay=_REPLAY_CM_MAP_DEGREE if len({sec for _, sec in hist}) == 1 else None,
+                              inputs={"history": [list(h) for h in hist]})
     chk.obl("centre-manifold map compute(): over all histories of length 3 of (degree of the shared centre manifold, section "
             "coordinate) the returned map is the one computed for the current request",
             "K2 postconditions (closed histories, bounded-exhaustive)",
